@@ -58,4 +58,10 @@ theorem repaired_refuses :
     validateOriginalUrlRepaired env w3 [] = .ok ['/'] ∧ validateOriginalUrlRepaired env w3b [] = .ok ['/'] ∧
     validateOriginalUrlRepaired env w4 "/vgi".toList = .ok "/vgi".toList := by decide
 
+/-- (seeded change C37-6, never in the tree) with the `X or DEFAULT` shape of the defaulting an explicitly empty
+allow-list would silently become the built-in default -/
+theorem truthy_defaulting_ignores_empty :
+    effectiveAllowWith .truthy (some []) = Gen.Pkce.defaultAllowedReturnOrigins ∧ Gen.Pkce.defaultAllowedReturnOrigins ≠ [] := by
+  decide
+
 end VgiVerif.C37.Findings
